@@ -410,4 +410,37 @@ theorem lock_balance_counter :
     Galaxy.Lockset.balanced [⟨0, 0, .excl, .deferred, ""⟩, ⟨0, 0, .excl, .unheld, "explicit unlock + deferred unlock"⟩] = false := by
   decide
 
+/-! ### 13. "do not keep a lock held": no re-entrant acquisition (interleaving wedge) -/
+
+/-- the transitive lock sets emitted by the translator are closed (they contain what each function locks itself and
+what its same-package callees lock), so `no_reentrant_acquisition` below does not trust the translator's fixpoint. -/
+theorem acquired_locks_closed :
+    Galaxy.Lockset.acqClosed Galaxy.Generated.Lockset.table Galaxy.Generated.Lockset.acqDirect
+      Galaxy.Generated.Lockset.acqTrans = true := by decide +kernel
+
+/-- C18 "do not loop forever and do not keep a lock held", interleaving form: no function calls — while holding a lock
+`L`, shared or exclusive, locally or by its caller-holds-the-lock contract — a function that (transitively) acquires
+`L` again, and none re-acquires a lock it holds.  A second `Lock` self-deadlocks at once; a second `RLock` (e.g.
+`First` calling `ByKeyAndIPRanges` under `cacheLock.RLock()`) deadlocks as soon as a writer queues between the two,
+leaving the pod and pool locks of the request held for ever. -/
+theorem no_reentrant_acquisition :
+    Galaxy.Lockset.noReentrant Galaxy.Generated.Lockset.table Galaxy.Generated.Lockset.acqTrans
+      Galaxy.Generated.Lockset.selfReacquire = true := by decide +kernel
+
+/-- Non-vacuity: the tables are populated (locking functions, helpers that inherit their callees' locks). -/
+example : Galaxy.Generated.Lockset.acqDirect.length ≥ 30 ∧
+    Galaxy.Generated.Lockset.acqTrans.length > Galaxy.Generated.Lockset.acqDirect.length := by decide +kernel
+
+/-- Why re-entrant READ locks are forbidden too (writer preference of sync.RWMutex: a pending `Lock` blocks new
+`RLock`s): reader thread 0 takes the read lock twice, writer thread 1 wants the lock.  After the reader's first `RLock` and the writer's arrival at
+its `Lock` (schedule 0, 1) neither thread can move: a reachable deadlock.  Without the second acquisition the same system runs to completion. -/
+theorem reentrant_rlock_deadlocks_counter :
+    ((Galaxy.Lockset.stepWP (Galaxy.Lockset.init
+          [[.racq 0, .racq 0, .rd 7, .rrel 0, .rrel 0], [.rd 9, .acq 0, .wr 7, .rel 0]]) 0).bind
+        (fun s => Galaxy.Lockset.stepWP s 1)).map Galaxy.Lockset.deadlockedWP = some true ∧
+    ((Galaxy.Lockset.stepWP (Galaxy.Lockset.init
+          [[.racq 0, .rd 7, .rrel 0], [.rd 9, .acq 0, .wr 7, .rel 0]]) 0).bind
+        (fun s => Galaxy.Lockset.stepWP s 1)).map Galaxy.Lockset.deadlockedWP = some false := by
+  decide
+
 end Galaxy.Props.C18
